@@ -82,7 +82,8 @@ def bfs[S](
             return Result(None, float("inf"), iterations, len(visited), Status.MAX_ITER)
         return Result(None, float("inf"), iterations, len(visited), Status.INFEASIBLE)
 
-    return Result(visited, len(visited), iterations, len(visited))
+    # Without a goal the answer is the reachable set: complete only if the queue ran empty
+    return Result(visited, len(visited), iterations, len(visited), Status.OPTIMAL if not queue else Status.MAX_ITER)
 
 
 def dfs[S](
@@ -119,7 +120,8 @@ def dfs[S](
             return Result(None, float("inf"), iterations, len(visited), Status.MAX_ITER)
         return Result(None, float("inf"), iterations, len(visited), Status.INFEASIBLE)
 
-    return Result(visited, len(visited), iterations, len(visited))
+    # Without a goal the answer is the reachable set: complete only if the stack ran empty
+    return Result(visited, len(visited), iterations, len(visited), Status.OPTIMAL if not stack else Status.MAX_ITER)
 
 
 @with_rust_backend
